@@ -114,7 +114,11 @@ func (m *Models) Locks() *LockModel {
 			for i := 0; i < st.NumFields(); i++ {
 				if isMutexType(st.Field(i).Type()) {
 					idx := len(lm.names)
-					lm.names = append(lm.names, obj.Name()+"."+st.Field(i).Name())
+					owner := p.ownerName(st.Field(i)) // the recorded owner: also for a renamed type, or a mutex moved into an embedded helper struct
+					if owner == "" {
+						owner = obj.Name()
+					}
+					lm.names = append(lm.names, owner+"."+p.canonFieldName(st.Field(i)))
 					lm.byVar[st.Field(i)] = idx
 					mutexes = append(mutexes, idx)
 				}
